@@ -109,6 +109,8 @@ the theorems assume `Quu * solveM Quu Y = Y`, `Quu *ᵥ solveV Quu y = y` for po
 structure Solver (α : Type) (ns nc : Nat) where
   solveM : Mat α nc nc → Mat α nc ns → Mat α nc ns
   solveV : Mat α nc nc → Vec α nc → Vec α nc
+  /-- `torch.linalg.cholesky` returns (does not raise `_LinAlgError`) on this matrix; contract: true on symmetric PD ones -/
+  accepts : Mat α nc nc → Bool
 
 /-- `V`, `v` carried by the backward loop -/
 structure Val (α : Type) (ns : Nat) where
@@ -125,11 +127,11 @@ structure Gain (α : Type) (ns nc : Nat) where
 
 /-! ### `runsys` (nominal roll-out) -/
 
-/-- `x_traj[0] = x`, `x_traj[i+1] = system(x_traj[i], u_traj[i])[0]`; the clock advances by one per call.
-Returns `n` states. -/
-def rollFrom {ns nc : Nat} (S : Sys α ns nc) (ubar : Nat → Vec α nc) : Nat → Nat → Vec α ns → List (Vec α ns)
-  | _, 0, _ => []
-  | clk, n+1, x => x :: rollFrom S ubar (clk+1) n (S.f clk x (ubar clk))
+/-- `x_traj[0] = x`, `x_traj[i+1] = system(x_traj[i], u_traj[i])[0]`: the nominal input is indexed by the LOOP index `i`,
+the system by its clock `clk` (one tick per call) — two different counters, as in `fwFrom`. Returns `n` states. -/
+def rollFrom {ns nc : Nat} (S : Sys α ns nc) (ubar : Nat → Vec α nc) : Nat → Nat → Nat → Vec α ns → List (Vec α ns)
+  | _, _, 0, _ => []
+  | clk, i, n+1, x => x :: rollFrom S ubar (clk+1) (i+1) n (S.f clk x (ubar i))
 
 /-- list as index function (positions past the end: zeros, never read) -/
 def nth {n : Nat} (l : List (Vec α n)) (t : Nat) : Vec α n := l.getD t vzero
@@ -226,7 +228,7 @@ def resetClock (_clk : Nat) : Nat := 0
 (before `runsys`) and `c2` (before the forward loop). -/
 def lqrAt {ns nc : Nat} (sol : Solver α ns nc) (S : Sys α ns nc) (P : Prob α ns nc) (dt : Nat)
     (x0 : Vec α ns) (ubar : Nat → Vec α nc) (c1 c2 : Nat) : Out α ns nc :=
-  let xl := rollFrom S ubar c1 P.T x0
+  let xl := rollFrom S ubar c1 0 P.T x0
   let xbar := nth xl
   let gs := (bwFrom sol S P dt xbar ubar 0 P.T).2
   let r := fwFrom S P xbar ubar c2 0 x0 gs
@@ -237,6 +239,27 @@ def lqrAt {ns nc : Nat} (sol : Solver α ns nc) (S : Sys α ns nc) (P : Prob α 
 def lqr {ns nc : Nat} (sol : Solver α ns nc) (S : Sys α ns nc) (P : Prob α ns nc) (dt : Nat)
     (x0 : Vec α ns) (ubar : Nat → Vec α nc) : Out α ns nc :=
   lqrAt sol S P dt x0 ubar (resetClock 0) (resetClock 0)
+
+/-- how `LQR.forward` can fail on inputs the model can express -/
+inductive LqrError where
+  /-- `u_traj` given with a number of steps other than `T` (the code raises in `torch.cat((x_traj, u_traj))`) -/
+  | nominalLength
+  /-- `cholesky(Quu)` raised at some step of the backward loop -/
+  | notPD
+deriving DecidableEq, Repr
+
+/-- `LQR.forward(x_init, dt, u_traj)` with its error branches: a `u_traj` of the wrong length and a `Quu` that Cholesky rejects
+raise; otherwise `lqr` with `nomOf u_traj` (where `nomOf` never pads, because the length is `T`). Shape / dtype asserts
+(`x_init.ndim == 2`, equal dtypes and devices) have no counterpart: the model is typed. -/
+def lqrChecked {ns nc : Nat} (sol : Solver α ns nc) (S : Sys α ns nc) (P : Prob α ns nc) (dt : Nat)
+    (x0 : Vec α ns) (utraj : Option (List (Vec α nc))) : Except LqrError (Out α ns nc) :=
+  let lenOK := match utraj with
+    | none => true
+    | some l => l.length == P.T
+  if lenOK then
+    let o := lqr sol S P dt x0 (nomOf utraj)
+    if o.gains.all (fun g => sol.accepts g.Quu) then .ok o else .error .notPD
+  else .error .nominalLength
 
 /-- The call as a transition of the system object's clock: entered with the clock at `clk`, the first
 `reset()` puts it to 0, `runsys` advances it `T-1` times, (`set_refpoint` may write it), the second `reset()`
@@ -328,6 +351,8 @@ def Stepper.default : Stepper α := Stepper.new 10 5 (q 1 1000) (q 1 100000)
 
 /-- `MPC.__init__`: `self.stepper = ReduceToBason(steps=10) if stepper is None else stepper; self.stepper.max_steps -= 1`
 (n-1 loops, the last solve is made outside the loop) -/
+-- NOTE: the code decrements the CALLER's stepper object in place: two MPC objects built around one stepper decrement it
+-- twice (the harness' `shared_stepper` cases pass the already decremented budget to the model).
 def mpcInit (st : Option (Stepper α)) : Stepper α :=
   let s := st.getD Stepper.default
   { s with maxSteps := s.maxSteps - 1 }
